@@ -39,7 +39,7 @@ func (Prop) Describe() core.Description {
 		Notes: map[string]string{
 			"sim_time_note": "C20 has no clock in it; sim_time_ns is 0 by construction",
 		},
-		RequiredProbesQuick: []string{"panic_recovered_call", "panic_recovered_hook", "error_with_data", "wrong_data_only", "inapplicable_faulty", "goexit_env", "invalid_regexp", "lacking_interface", "lacking_interface_all_inapplicable", "typehelper_used", "nil_receiver", "nil_value_unmarshal"},
+		RequiredProbesQuick: []string{"panic_recovered_call", "panic_recovered_hook", "error_with_data", "wrong_data_only", "inapplicable_faulty", "goexit_env", "invalid_regexp", "lacking_interface", "lacking_interface_all_inapplicable", "typehelper_used", "nil_receiver", "nil_value_unmarshal", "nil_interface_value"},
 	}
 }
 
@@ -215,7 +215,7 @@ func classOf(ls listSpec, l *listRun) (nontrivial bool, classes []uint64) {
 		if l.failures[i] > 0 {
 			verdict = 1
 		}
-		h.Add(uint64(ls.enc*2+ls.dir)<<40 | uint64(ls.shape)<<32 | uint64(pos)<<28 | uint64(c.constraint)<<24 | uint64(c.beh)<<16 | uint64(c.before)<<12 | uint64(c.after)<<8 | uint64(c.pred)<<4 | uint64(verdict)<<1 | b2u(ls.typeHelper) | b2u(c.nilValue)<<44)
+		h.Add(uint64(ls.enc*2+ls.dir)<<40 | uint64(ls.shape)<<32 | uint64(pos)<<28 | uint64(c.constraint)<<24 | uint64(c.beh)<<16 | uint64(c.before)<<12 | uint64(c.after)<<8 | uint64(c.pred)<<4 | uint64(verdict)<<1 | b2u(ls.typeHelper) | b2u(c.nilValue)<<44 | b2u(c.nilIface)<<45)
 		classes = append(classes, uint64(h))
 	}
 	if !ls.hasInterface() && len(ls.cases) > 0 {
@@ -281,6 +281,10 @@ func probes(res *core.Result, ls listSpec, l *listRun) {
 		if c.before == hError || c.after == hError {
 			res.Faults.Inc("hook_error")
 		}
+		if c.nilIface && c.before == hPass {
+			res.Probes.Inc("nil_interface_value")
+			res.Faults.Inc("call_on_nil_interface_value")
+		}
 		if c.beh == bNilReceiver && c.before == hPass {
 			// the call happens (right after the Before hook) but panics before it can announce itself
 			res.Probes.Inc("nil_receiver")
@@ -319,7 +323,7 @@ func finish(res *core.Result, ls listSpec, o core.RunOpts, extraTrace []string) 
 	h := core.NewHash()
 	h.Add(uint64(ls.enc*2+ls.dir)<<8 | uint64(ls.shape)<<4 | b2u(ls.goexit)<<1 | b2u(ls.typeHelper))
 	for _, c := range ls.cases {
-		h.Add(uint64(c.constraint)<<24 | uint64(c.beh)<<16 | uint64(c.before)<<12 | uint64(c.after)<<8 | uint64(c.pred) | b2u(c.nilValue)<<28)
+		h.Add(uint64(c.constraint)<<24 | uint64(c.beh)<<16 | uint64(c.before)<<12 | uint64(c.after)<<8 | uint64(c.pred) | b2u(c.nilValue)<<28 | b2u(c.nilIface)<<29)
 	}
 	for _, e := range l.events {
 		h.AddString(e.what)
@@ -373,7 +377,7 @@ func (Prop) RunEnum(i int, o core.RunOpts) *core.Result {
 	return finish(res, ls, o, []string{fmt.Sprintf("enumeration index %d", i)})
 }
 
-var shapeWeights = [...]int{shV, shV, shV, shP, shP, shP, shOnlyM, shOnlyU, shNone}
+var shapeWeights = [...]int{shV, shV, shV, shP, shP, shP, shOnlyM, shOnlyU, shNone, shIface, shIface}
 
 func genCase(t *core.Tape) caseSpec {
 	c := caseSpec{}
@@ -393,6 +397,7 @@ func genCase(t *core.Tape) caseSpec {
 		c.pred = t.Choose(numPreds)
 	}
 	c.nilValue = t.Bool(1, 8)
+	c.nilIface = t.Bool(1, 6)
 	c.payload = [...]string{"p", "", "payload with spaces", "{\"k\":1}", "\x00\xff", "~"}[t.Choose(6)]
 	return c
 }
@@ -426,6 +431,7 @@ func (Prop) Run(t *core.Tape, o core.RunOpts) *core.Result {
 	for i := range ls.cases {
 		one := ls
 		one.cases = []caseSpec{ls.cases[i]}
+		normalise(&one)
 		finish(res, one, o, []string{fmt.Sprintf("singleton re-run of case %d", i)})
 		res.Extra.Inc("singleton_reruns")
 		if res.Violation != nil {
